@@ -28,7 +28,7 @@ META = {
     'design_ref': 'DESIGN.md section 4 C17',
     'theorems': ['C17_pattern', 'C17_pattern_dash_time', 'C17_pattern_v1', 'C17_first_match_v1', 'C17_tz_attached',
                  'C17_iso_precedence', 'C17_iso_precedence_v1', 'C17_iso', 'C17_iso_v1', 'C17_dump_load', 'C17_dump_load_v1',
-                 'C17_reject_v1', 'C17_reject_partial', 'C17_elementwise', 'C17_elementwise_error', 'C17_refuted_time_dash'],
+                 'C17_reject_v1', 'C17_reject', 'C17_elementwise', 'C17_elementwise_error'],
     'tables': [],
     'level_text': ('Theorems proved in Coq for ALL patterns, strings, values, classes and time zones about an executable model of the '
                    'two generated decision trees (default engine and v1): order of the ISO / strptime attempts, first matching '
@@ -47,7 +47,6 @@ META = {
                     'each Pattern object annotates one field (a shared instance is mutated with the field type: modelled-not-verified)'],
 }
 
-FID = 'F26'
 ZONES = ['Europe/London', 'Asia/Tokyo', 'America/New_York', 'UTC', 'Australia/Adelaide']
 OFFSETS = [0, 19800, -28800, 3600, 34200, -12600]
 BASE = {'date': _dt.date, 'time': _dt.time, 'datetime': _dt.datetime}
@@ -418,14 +417,9 @@ Definition show_out (o : outcome) : pstr :=
   match o with
   | Loaded v => show_val v
   | ParseErr ps => S "P:" ++ join (S ",") (map hex ps)
-  | RetNone => S "N"
-  | AttrErr => S "A"
   end.
-Definition show_elems (r : list (option val) + outcome) : pstr :=
-  match r with
-  | inl vs => S "[" ++ join (S ";") (map (fun x => match x with Some v => show_val v | None => S "N" end) vs) ++ S "]"
-  | inr e => show_out e
-  end.
+Definition show_elems (r : list val + outcome) : pstr :=
+  match r with inl vs => S "[" ++ join (S ";") (map show_val vs) ++ S "]" | inr e => show_out e end.
 Definition missing : stamp := {| yr := -1; mo := 0; dy := 0; hh := 0; mi := 0; ss := 0; us := 0; tz := None; fold := 0 |}.
 Fixpoint lk (s : pstr) (t : list (pstr * option stamp)) : option stamp :=
   match t with [] => Some missing | (k, v) :: r => if pstr_eqb s k then v else lk s r end.
@@ -565,12 +559,6 @@ def run(ctx):
     groups = gen_groups(ctx)
     impl = ctx.impl('c17', payload(groups))['groups']
 
-    # known finding F26: replay the witness
-    fd = ctx.finding(FID)
-    if fd is not None:
-        ok = replay(ctx, fd['witness'], quiet=True)
-        ctx.known_finding(FID, still_fails=not ok)
-
     exprs, index = [], []          # model expressions and where they belong
     nviol = 0
     for g, gres in zip(groups, impl):
@@ -600,10 +588,10 @@ def run(ctx):
                 else:
                     region = any(in_f26_region(f, s) for s in ss)
                     bad = check_container(ctx, f, inp, ss, res)
+                if region:
+                    ctx.hist('f26_shape_covered', f['container'] or 'scalar')
                 if bad:
-                    if region and ctx.is_open_region(FID):
-                        ctx.hist('known_region', FID)
-                    elif nviol < 8:
+                    if nviol < 8:
                         nviol += 1
                         ctx.violation('%s engine, %s: %s' % (f['engine'], f['ann'], bad), replay_obj(f, inp, bad))
                 # ---- model expressions: the input, and the dump of its load ----
